@@ -26,12 +26,12 @@ open Amgcl Amgcl.Solver
 structure Work (K : Type) where
   h : Hess K
   r : Vec K
-  v : Nat → Vec K
+  v : FArr (Vec K)
 
 /-- a freshly constructed solver for size `n` (`Backend::create_vector` zero-fills; `multi_array`/`std::vector`
 value-initialise) -/
 def Work.fresh {K : Type} [Zero K] (n : Nat) : Work K :=
-  ⟨Hess.fresh, Array.replicate n 0, fun _ => Array.replicate n 0⟩
+  ⟨Hess.fresh, Array.replicate n 0, .const (Array.replicate n 0)⟩
 
 /-- `gmres::params`: the common fields + `M`, `pside` -/
 structure Params (K : Type) extends Amgcl.Solver.Params K where
@@ -95,7 +95,7 @@ def cycle (prm : Params K) (ip : Vec K → Vec K → K) (sqrt : K → K) (A : CR
                     v := setF w.v 0 v0 } }
   let t := doWhile (cont prm.maxiter prm.M epsT) (step prm.pside ip sqrt A P) prm.M t0
   let s := backSubst t.j t.w.h.H t.w.h.s                  -- for (i = j; i --> 0; ) { … }
-  let dx := linComb (combList t.j s t.w.v) 0 t.w.r        -- vector &dx = *r; backend::lin_comb(j, s, v, zero, dx);
+  let dx := linComb (combList t.j s.get t.w.v.get) 0 t.w.r        -- vector &dx = *r; backend::lin_comb(j, s, v, zero, dx);
   match prm.pside with
   | .left =>
     { iter := t.iter, normR := st.normR,
